@@ -42,7 +42,7 @@ package raftstore
 //@   assert@call PutUint64#1 : limit: callarg2 == max && samearray(callarg1, limitKey) && len(limitKey) == 9
 //@   assert@call LevelDBStore.keyRangeIterator#0 : range: samearray(callarg1, startKey) && samearray(callarg2, limitKey)
 //@   ensures written: result == nil ==> s.db.seq == old(s.db.seq) + 1
-//@   modifies *
+//@   modifies *, !main.FSM, !maptype(map[uint64][]byte)
 
 // A missing entry is reported with raft's own not-found error.
 //@ func LevelDBStore.GetLog
@@ -63,3 +63,39 @@ package raftstore
 //@   assert@call DB.Get#0 : stablekey: len(callarg1) >= 12 && callarg1[0] == 's' && callarg1[11] == '-'
 //@ func LevelDBStore.GetUint64
 //@   assert@call DB.Get#0 : stablekey: len(callarg1) >= 12 && callarg1[0] == 's' && callarg1[11] == '-'
+
+// ---------------------------------------------------------------------------
+// C02: the store as a set of log indexes (ghost field idx). The clauses
+// labelled assumed- are the model of goleveldb the compaction proof rests on
+// (the bodies below go through leveldb iterators and batches, which the
+// generator does not interpret); /verif's bounded stand-in for C09 runs the
+// same operations against a map. They are listed as assumptions in the
+// evidence of every check that uses them.
+//@ ghostfield LevelDBStore.idx set
+
+// smallest / largest stored index, 0 for an empty store; no error is ever returned
+//@ func LevelDBStore.FirstIndex
+//@   ensures assumed-noerr: result1 == nil
+//@   ensures assumed-empty: (forall k uint64 :: !s.idx[k]) ==> result0 == 0
+//@   ensures assumed-first: (exists k uint64 :: s.idx[k]) ==> s.idx[result0] && (forall k uint64 :: s.idx[k] ==> result0 <= k)
+//@ func LevelDBStore.LastIndex
+//@   ensures assumed-noerr: result1 == nil
+//@   ensures assumed-empty: (forall k uint64 :: !s.idx[k]) ==> result0 == 0
+//@   ensures assumed-last: (exists k uint64 :: s.idx[k]) ==> s.idx[result0] && (forall k uint64 :: s.idx[k] ==> k <= result0)
+
+// the bulk iterator walks the entries present now, in [start, limit), in index order
+//@ func LevelDBStore.GetBulkIterator
+//@   ensures assumed-bulk: result != nil && fresh(result) && result.bulk && !result.valid && result.lo == start && result.hi == limit && result.snap == s.idx
+
+// DeleteRange removes exactly the indexes in [min, max]
+//@ func LevelDBStore.DeleteRange
+//@   ensures assumed-range: result == nil ==> (forall k uint64 :: s.idx[k] <==> old(s.idx[k]) && !(min <= k && k <= max))
+//@   modifies LevelDBStore.idx[s]
+
+// storing an entry adds its index
+//@ func LevelDBStore.StoreLogProto
+//@   ensures assumed-stored: result == nil ==> (forall k uint64 :: s.idx[k] <==> old(s.idx[k]) || k == msg.Index)
+//@   modifies LevelDBStore.idx[s], leveldb.DB.seq[s.db]
+//@ func LevelDBStore.StoreLog
+//@   ensures assumed-stored: result == nil ==> (forall k uint64 :: s.idx[k] <==> old(s.idx[k]) || k == entry.Index)
+//@   modifies LevelDBStore.idx[s], leveldb.DB.seq[s.db]
